@@ -3,6 +3,7 @@ import IastModel.Spec.ArgsMirror
 import IastModel.Lemmas.Monad
 import IastModel.Lemmas.Tree
 import IastModel.Lemmas.MirCall
+import IastModel.Lemmas.CwMaster
 /-
   C03 — hooks receive the true result and the true operands, in order (static half).
   Proved: for every operand that is not a `+` chain the operand handler pushes exactly the operand it
@@ -81,5 +82,51 @@ theorem call_hook_built_mirrors (cfg : Config) (callee : Node) (cargs : List Nod
     (e' : Node) (tag : String) (h : (toDdCall cfg (.call callee cargs csp) s).1 = some (e', tag)) :
     ∃ first args asg name sp, e' = ddParen first args asg name sp ∧ MirOK cfg (ddCall first args name sp) :=
   toDdCall_mirror cfg callee cargs csp s e' tag h
+
+/-! ### the whole pipeline -/
+
+/-- **Every hook call of the instrumented program mirrors the operation in its first argument** (the static
+    half of C03, whole pipeline).  For every configuration, fuel and program (hypotheses as in `master`:
+    the source does not mention the hook namespace, its `+=` targets are of the parser's shapes; both
+    reported per input by the driver), unless the rewrite is refused: every hook call site of the output
+    is accepted by `argsMirrorSite` or is classified as the recorded omission (`MirOK`).  Proved through
+    a certificate established where each hook call is built (`Cert`, `toDd*_cert`), shown to survive the
+    only later change to a built site — the block visitor rewriting block statements nested in it
+    (`BR`, `cert_BR`, `blockVisit_BR`) — and a counting pass over the visitors (`visit_W`,
+    `blockVisit_W`, generic in the counted predicate: `Cq*.lean`). -/
+theorem every_hook_mirrors_its_operation (cfg : Config) (fuel : Nat) (p : Node) (h0 : ns p = 0) (ht : targetsOk p = true)
+    (hnc : (transformProgram cfg fuel p).status ≠ .cancelled) :
+    ∀ h ∈ hooks (transformProgram cfg fuel p).out, MirOK cfg h :=
+  hooks_mirror_master cfg fuel p h0 ht hnc
+
+/-- in the executable vocabulary of the oracle: the only classes `argsMirror` can report on a model
+    output are the three "sum omitted" classes -/
+theorem argsMirror_reports_only_omitted_sums (cfg : Config) (fuel : Nat) (p : Node) (h0 : ns p = 0) (ht : targetsOk p = true)
+    (hnc : (transformProgram cfg fuel p).status ≠ .cancelled) :
+    ∀ c ∈ argsMirror cfg (transformProgram cfg fuel p).out,
+      c = sumClass cfg "plus" ∨ c = sumClass cfg "tpl" ∨ c = sumClass cfg "call" := by
+  intro c hc
+  simp only [argsMirror, List.mem_filterMap] at hc
+  obtain ⟨h, hh, hs⟩ := hc
+  rcases hooks_mirror_master cfg fuel p h0 ht hnc h hh with hm | ⟨w, hw, hm⟩
+  · rw [hm] at hs; cases hs
+  · rw [hm] at hs
+    simp only [Option.some.injEq] at hs
+    subst hs
+    rcases hw with rfl | rfl | rfl
+    · exact Or.inl rfl
+    · exact Or.inr (Or.inl rfl)
+    · exact Or.inr (Or.inr rfl)
+
+/-- the operation visitor alone leaves no hook site that fails the mirror check -/
+theorem visit_leaves_only_mirroring_hooks (cfg : Config) (f : Nat) (root : Bool) (n : Node) (s : St)
+    (h0 : ns n = 0) (ht : targetsOk n = true) (hs : s.status ≠ .cancelled) :
+    ∀ h ∈ hooks (visit cfg f root n s).1, MirOK cfg h := by
+  have hz : cv cfg (visit cfg f root n s).1 = 0 := by
+    rw [visit_V cfg (okCfg cfg) (cfgOk_dsts cfg) f root n s h0 ht hs]
+    exact cq_of_ns0 _ n h0
+  intro h hh
+  have := cq_zero_hooks _ _ hz h hh
+  exact MirOK_of_siteOKb (by simpa [badSite] using this)
 
 end IastModel.C03
